@@ -2,6 +2,7 @@ import Pep508.Driver.Marker
 import Pep508.Model.MarkerParse
 import Pep508.Model.ReqParse
 import Pep508.Model.ReqShow
+import Pep508.Model.Unnamed
 import Pep508.Model.ErrDisplay
 import Pep508.Model.Dnf
 import Pep508.Model.Interner
@@ -181,6 +182,28 @@ def runErrDisp (args : List String) : String :=
       | none => "panic"
       | some (pre, none) => s!"ul={width 0 pre}:1"
       | some (pre, some u) => s!"ul={width 0 pre}:{width pre.length u}"
+    | _, _, _ => "bad-op"
+  | _ => "bad-op"
+
+/-- `unnamed <text> <alpha> <table> <vars> <cwd>` ↦ `call=<kind>:<hex>:<start>:<len> <TAB> then=…` (stage 1) -/
+def runUnnamed (args : List String) : String :=
+  match args with
+  | [text, alpha, table, vars, cwd] =>
+    match charsOfHex text, parseExtArgs alpha (table.splitOn " "), parseProcEnv vars cwd with
+    | some t, some x, some env =>
+      let out := parseUnnamed env x t
+      let call := match out.call with
+        | none => "-"
+        | some c =>
+          let k := match c.kind with | .file => "file" | .url => "url" | .path => "path"
+          s!"{k}:{hexOfChars c.text}:{c.start}:{c.len}"
+      let fin := match out.fin with
+        | .ok r =>
+          let extras := if r.extras.isEmpty then "-" else ";".intercalate (r.extras.map hexOfBytes')
+          s!"ok given={hexOfChars r.given} extras={extras} marker={dumpTree r.marker} w={showWarns r.warns}"
+        | .err e => s!"err {showErrKind e.kind} {e.start} {e.len}"
+        | .panic s => s!"panic {s}"
+      s!"call={call}\tthen={fin}"
     | _, _, _ => "bad-op"
   | _ => "bad-op"
 
